@@ -220,6 +220,76 @@ def eval_case(history: dict) -> dict:
     return out
 
 
+def eval_recycle(arg) -> dict:
+    """Address-recycling stress: parse, build, forget a model, then build a different revision of
+    it (same names, other ports) that is made to live at the very address of the forgotten one.
+    Anything that remembers inputs by identity (id()) instead of by value shows up as a build
+    that differs from the fresh-process reference."""
+    import gc  # pylint: disable=import-outside-toplevel
+    seed, stream = arg
+    common.import_dznpy()
+    rng = random.Random(f'{PROP}:recycle:{seed}:{stream}')
+    out = {'violations': [], 'counts': {}}
+    cnt = out['counts']
+    gen, ent, _enc, _info = cfggen.gen_shell_case(rng, want_multiclient=False)
+    revisions = []
+    for rev in range(3):
+        g = copy.deepcopy(gen)
+        e = next(x for x in g.components if x[0] == ent[0])
+        comp = e[1]
+        for _ in range(rev):
+            if comp.ports and rng.random() < 0.5:
+                comp.ports.pop(rng.randrange(len(comp.ports)))
+            elif comp.ports:
+                src = rng.choice(comp.ports)
+                taken = {p.name[0].upper() + p.name[1:] for p in comp.ports} | {e[0][-1]}
+                comp.ports.append(M.Port(fresh(rng, taken, 'snake', casefold_first=True),
+                                         M.Ref(list(src.type.ids), src.type.target),
+                                         src.direction, src.injected))
+        enc = dict(cfggen.rand_cfg(rng, g, e, multiclient=False),
+                   provides={'sts': 'NONE', 'mts': 'ALL'}, requires={'sts': 'REMAINING', 'mts': 'NONE'})
+        doc = M.to_json(g.model)
+        ref = reference(doc, enc)
+        if 'files' not in ref:
+            out['harness_error'] = str(ref)
+            return out
+        revisions.append({'doc': doc, 'cfg': enc, 'want': [[n, s_] for n, s_, _h, _m in ref['files']]})
+    distinct = len({json.dumps(r['want']) for r in revisions})
+    history = {'kind': 'recycle', 'revisions': [{'doc': r['doc'], 'cfg': r['cfg']} for r in revisions]}
+    for _it in range(40):
+        r_old, r_new = rng.sample(range(3), 2)
+        old = shellbuild.parse_doc(revisions[r_old]['doc'])
+        shellbuild.build_files(revisions[r_old]['cfg'], old)
+        old_id = id(old)
+        del old
+        gc.collect()
+        new = shellbuild.parse_doc(revisions[r_new]['doc'])
+        keep, target = [], new
+        for _k in range(4000):
+            clone = copy.copy(new)
+            if id(clone) == old_id:
+                target = clone
+                cnt['recycled_addresses'] = cnt.get('recycled_addresses', 0) + 1
+                break
+            keep.append(clone)
+        del keep
+        files = shellbuild.build_files(revisions[r_new]['cfg'], target)
+        got = [[n, hashlib.sha256(c.encode('utf-8')).hexdigest()] for n, c, _h in files]
+        cnt['parse_build_forget_rounds'] = cnt.get('parse_build_forget_rounds', 0) + 1
+        if got != revisions[r_new]['want']:
+            differing = [a[0] for a, b in zip(got, revisions[r_new]['want']) if a != b]
+            out['violations'].append({
+                'mechanism': 'output-depends-on-history',
+                'detail': {'files': differing, 'after': 'parse-build-forget of another revision',
+                           'address_recycled': target is not new},
+                'case': history, 'klass': 'output-depends-on-history:forgotten-model'})
+            break
+    out['digest'] = common.digest(history)
+    out['nontrivial'] = distinct >= 2
+    out['sample'] = {'kind': 'recycle', 'revisions': 3, 'distinct_outputs': distinct}
+    return out
+
+
 def _worker(arg):
     seed, stream = arg
     rng = random.Random(f'{PROP}:{seed}:{stream}')
@@ -233,10 +303,16 @@ def main(tier: str) -> int:
                 'support_files_compared', 'failed_builds', 'successful_builds')
     for item, res in run.pmap(_worker, [(run.seed, i) for i in range(n)], timeout=1800):
         common.absorb(run, {'seed': item[0], 'stream': item[1]}, res)
+    n_rec = 8 if tier == 'quick' else 120
+    run.require('parse_build_forget_rounds', 'recycled_addresses')
+    for item, res in run.pmap(eval_recycle, [(run.seed, i) for i in range(n_rec)], timeout=1800):
+        common.absorb(run, {'seed': item[0], 'stream': item[1], 'kind': 'recycle'}, res)
     return run.finish(
         rule='histories of 3-12 builds over 1-3 shared parsed models, mixing valid and invalid '
              'configurations, other namespace prefixes, reused Builder instances and reused '
-             'Configuration objects; evaluations = histories; non-trivial = a parsed model is '
+             'Configuration objects, plus parse-build-forget rounds in which the next revision of '
+             'a model is placed at the recycled address of the forgotten one; evaluations = '
+             'histories; non-trivial = a parsed model is '
              'built again after a build on it failed; distinct = digest of the history',
         assumptions=['"observably unchanged" is decided by deep snapshots before/after each '
                      'build (all dataclass fields and instance attributes), not by write logs',
